@@ -546,13 +546,3 @@ Proof.
   - rewrite (gov_self es Hs _ _ Hn). lia.
 Qed.
 
-Print Assumptions C11_hint.
-Print Assumptions C11_ts.
-Print Assumptions C11_ts_reject.
-Print Assumptions C11_any_ok.
-Print Assumptions C11_index.
-Print Assumptions C11_threaded.
-Print Assumptions C11_threaded_err.
-Print Assumptions C11_notes.
-Print Assumptions C11_built_wf.
-Print Assumptions C11_bpm_self.
